@@ -97,6 +97,36 @@ def switchToLine (st : Enc) (line : Int) (cur : Int) (block : Nat) : Enc :=
 def placeInit (st : Enc) (base : Int) : Enc :=
   st.initRev.reverse.foldl (fun st e => switchToLine st e.1 (base + e.2) aProgram) st
 
+/-- `i_generate_node`: `if (expr->line && expr->line != (current_block == A_INITIALIZER ? init_line_being_generated :
+    line_being_generated)) switch_to_line (expr->line);` — does the visit of a node with this line switch? -/
+def nodeSwitches (st : Enc) (line : Int) (block : Nat) : Bool :=
+  decide (line ≠ 0) && decide (line ≠ (if block = aInitializer then st.initLine else st.lineBeing))
+
+/-- the visit of one parse node at code address `cur` -/
+def genNode (st : Enc) (line : Int) (cur : Int) (block : Nat) : Enc :=
+  if nodeSwitches st line block then switchToLine st line cur block else st
+
+/-- what `i_generate_node` sees, in order (harness `nv` line) -/
+inductive NEv where
+  | visit (line : Int) (addr : Int) (block : Nat) (count : Nat)   -- + count-1 further visits, same line and block, no switch
+  | other (line : Int) (addr : Int) (block : Nat)                  -- switch_to_line called from elsewhere
+  | init (base : Nat)
+deriving Repr
+
+/-- replay the visits: the compiler state and the `switch_to_line` calls the node visits make (newest first); a merged
+    visit that WOULD switch is recorded with address -1 -/
+def nodeStep (acc : Enc × List (Int × Int × Nat)) : NEv → Enc × List (Int × Int × Nat)
+  | .visit line addr block count =>
+    let sw := nodeSwitches acc.1 line block
+    let st1 := genNode acc.1 line addr block
+    let calls := if sw then (line, addr, block) :: acc.2 else acc.2
+    -- the merged visits: same line, same block, state after the first one
+    if count > 1 ∧ nodeSwitches st1 line block then (st1, (line, -1, block) :: calls) else (st1, calls)
+  | .other line addr block => (switchToLine acc.1 line addr block, acc.2)
+  | .init base => (placeInit acc.1 base, acc.2)
+
+def nodeRun (evs : List NEv) : Enc × List (Int × Int × Nat) := evs.foldl nodeStep ({}, [])
+
 /-- `save_file_info (file_id, lines)`: both values are stored through a `short` -/
 def saveFileInfo (st : Enc) (fileId : Int) (lines : Int) : Enc :=
   { st with fiRev := ⟨u16 lines, u16 fileId⟩ :: st.fiRev }
@@ -200,6 +230,22 @@ def storeStr (tbl : List Nat) (name : Nat) : Nat × List Nat :=
 def fileIdFor (fi : List Seg) (tbl : List Nat) (name : Nat) : Nat × List Nat :=
   let r := storeStr tbl name
   if fi.any (fun s => s.file == u16 r.1) then (r.2.length + 1, r.2 ++ [name]) else r
+
+/-! ### the scan of `A_FILE_INFO` as `program_file_id` performs it (parameters transcribed from the source) -/
+
+/-- `A_FILE_INFO` as the flat array of `unsigned short`s that `save_file_info` appends: `<lines> <file id>` per segment -/
+def flatFi (fi : List Seg) : List Nat := fi.flatMap fun s => [s.count, s.file]
+
+/-- `for (i = start; i < n; i += step) if (fi[i] == (T) file_id) …` over the flat array, `i` = index of the head -/
+def scanFlat (n : Nat) (id : Nat) : List Nat → Nat → Bool
+  | [], _ => false
+  | x :: xs, i =>
+    (decide (i < n ∨ (fidScanIncl = true ∧ i = n)) && decide (fidScanStart ≤ i) && decide ((i - fidScanStart) % fidScanStep = 0) &&
+      decide (x = id % fidCastMod)) || scanFlat n id xs (i + 1)
+
+/-- is file id `id` used by a segment written so far?  `n = A_FILE_INFO.current_size / sizeof (…)` entries are looked at -/
+def fileIdInUse (fi : List Seg) (id : Nat) : Bool :=
+  scanFlat (fidEntries (fidElemBytes * (flatFi fi).length)) id (flatFi fi) 0
 
 def lexStepN (s : LexN) : LexEvN → LexN
   | .nl => { s with lex := lexStep s.lex .nl }
